@@ -67,3 +67,4 @@ func verifTraceLeaks(prefix string) int
 func verifTraceClass(class string)
 func verifBigHexDigits() []byte
 func verifIteI64(c bool, a, b int64) int64
+func verifUFv(name string, n int, bytes []byte, nums ...uint64) []byte
